@@ -67,6 +67,21 @@ Proof.
   destruct (h =? 0) eqn:E; [apply N.eqb_eq in E | apply N.eqb_neq in E]; apply N.eqb_neq; lia.
 Qed.
 
+Lemma is_ack_ack n : is_ack (ack_frame n) = true.
+Proof. reflexivity. Qed.
+
+Lemma is_ack_reply n h q : cmd_ok q -> is_ack (bmc_reply n h q) = false.
+Proof. intros H. unfold is_ack, bmc_reply; cbn. apply N.eqb_neq; auto. Qed.
+
+Lemma is_ack_stale n h q : cmd_ok q -> is_ack (stale_frame n h q) = false.
+Proof. intros H. unfold is_ack, stale_frame; cbn. apply N.eqb_neq; auto. Qed.
+
+Lemma repeat_snoc {A} (x : A) n : repeat x n ++ [x] = x :: repeat x n.
+Proof. induction n; cbn; auto. rewrite IHn. reflexivity. Qed.
+
+Lemma rev_repeat' {A} (x : A) n : rev (repeat x n) = repeat x n.
+Proof. induction n; cbn; auto. rewrite IHn. apply repeat_snoc. Qed.
+
 Lemma stale_needs_retry c n : stale_ok c -> is_stale c n = true -> Nat.leb 1 (c_max_retries c) = true.
 Proof.
   intros [E|E] H.
@@ -81,9 +96,12 @@ Definition holder_ok (c : cfg) (w : list event) (ib : list frame) (t : tid) (th 
   | PRecv h retry rr =>
       retry = 0%nat /\
       exists s q l, nth_error (t_reqs th) (t_k th) = Some q /\ wf_wire c l /\
-        ((rr = 0%nat /\ w = Sent t (t_k th) s h q :: l /\ ib = bmc_frames c (nsent l) h q) \/
+        ((rr = 0%nat /\ exists a b, (a + b = q_depth q)%nat /\
+            (* a acknowledges read so far, b still on the socket *)
+            w = repeat (Rcvd t (ack_frame (nsent l))) a ++ Sent t (t_k th) s h q :: l /\
+            ib = repeat (ack_frame (nsent l)) b ++ bmc_frames c (nsent l) h q) \/
          (rr = 1%nat /\ is_stale c (nsent l) = true /\
-          w = Rcvd t (stale_frame (nsent l) h q) :: Sent t (t_k th) s h q :: l /\
+          w = Rcvd t (stale_frame (nsent l) h q) :: exch_acks t (nsent l) q ++ Sent t (t_k th) s h q :: l /\
           ib = [bmc_reply (nsent l) h q]))
   | PRel h (Ok r) =>
       exists s q l, nth_error (t_reqs th) (t_k th) = Some q /\
@@ -118,7 +136,8 @@ Variable s0 : N.
 Hypothesis Hst : stale_ok c.
 Hypothesis Hlose : c_lose c = [].
 
-Lemma delivers_all n h q : bmc_delivers c n h q = bmc_frames c n h q.
+Lemma delivers_all n h q :
+  bmc_delivers c n h q = repeat (ack_frame n) (q_depth q) ++ bmc_frames c n h q.
 Proof. unfold bmc_delivers, is_lost. rewrite Hlose. reflexivity. Qed.
 
 Record Inv (g : gstate) : Prop := mkInv {
@@ -136,11 +155,12 @@ Record Inv (g : gstate) : Prop := mkInv {
              end;
   inv_cur : forall t th, nth_error (g_thr g) t = Some th ->
             t_pc th = PIdle \/ nth_error (t_reqs th) (t_k th) <> None;
-  inv_ret : forall t th, nth_error (g_thr g) t = Some th -> ret_ok c (g_wire g) t th }.
+  inv_ret : forall t th, nth_error (g_thr g) t = Some th -> ret_ok c (g_wire g) t th;
+  inv_reqs : forall t th, nth_error (g_thr g) t = Some th -> Forall cmd_ok (t_reqs th) }.
 
-Lemma inv_init nsn0 progs : Inv (init nsn0 s0 progs).
+Lemma inv_init nsn0 progs : Forall (Forall cmd_ok) progs -> Inv (init nsn0 s0 progs).
 Proof.
-  constructor; cbn; auto.
+  intros Hrq. constructor; cbn; auto.
   - intros t th H. apply nth_error_In in H. apply in_map_iff in H. destruct H as (p & <- & _).
     cbn. split; discriminate.
   - intros t th H. apply nth_error_In in H. apply in_map_iff in H. destruct H as (p & <- & _).
@@ -150,6 +170,8 @@ Proof.
     left; reflexivity.
   - intros t th H. apply nth_error_In in H. apply in_map_iff in H. destruct H as (p & <- & _).
     exact I.
+  - intros t th H. apply nth_error_In in H. apply in_map_iff in H. destruct H as (p & <- & Hin).
+    cbn. rewrite Forall_forall in Hrq. auto.
 Qed.
 
 (* a thread outside the critical section is not the holder *)
@@ -177,6 +199,12 @@ Ltac ret_goal Hth Ir :=
   [ unfold ret_ok; cbn; auto
   | first [ eapply Ir; solve [eauto] | apply ret_ok_cons; eapply Ir; solve [eauto] ] ].
 
+Ltac reqs_goal Hth Irq :=
+  let t' := fresh "t'" in let x := fresh "x" in let Hx := fresh "Hx" in
+  intros t' x Hx;
+  destruct (upd_cases _ _ _ _ _ _ Hth Hx) as [[-> ->]|[? ?]];
+  [ cbn; eapply Irq; solve [eauto] | eapply Irq; solve [eauto] ].
+
 Lemma done_ok_set_pc w t th p : done_ok c w t th -> done_ok c w t (set_pc th p).
 Proof. auto. Qed.
 
@@ -189,7 +217,7 @@ Lemma inv_local g t th p v : Inv g -> nth_error (g_thr g) t = Some th ->
   Inv (set_thr (set_nsn g v) t (set_pc th p)).
 Proof.
   intros I Hth Hcs Hp q Hq Hnr. pose proof (not_holder g t th I Hth Hcs) as NH.
-  destruct I as [Il Iq In Is Iso Id Ih Ic Ir]. constructor; cbn; auto.
+  destruct I as [Il Iq In Is Iso Id Ih Ic Ir Irq]. constructor; cbn; auto.
   - intros t' x Hx. destruct (upd_cases _ _ _ _ _ _ Hth Hx) as [[-> ->]|[Hne Hx']].
     + cbn. rewrite Hp. split; [discriminate | intro; contradiction].
     + apply Il; auto.
@@ -202,6 +230,7 @@ Proof.
   - intros t' x Hx. destruct (upd_cases _ _ _ _ _ _ Hth Hx) as [[-> ->]|[? ?]].
     + unfold ret_ok; cbn. destruct p; auto. exfalso. eapply Hnr; eauto.
     + eapply Ir; eauto.
+  - reqs_goal Hth Irq.
 Qed.
 
 (* step 6: the holder reads a datagram - only the socket side and its own pc change *)
@@ -213,7 +242,7 @@ Lemma inv_recv g t th p rx ib q : Inv g -> nth_error (g_thr g) t = Some th ->
                t (set_pc th p)).
 Proof.
   intros I Hth Hcs Hp Hq Hk. destruct (is_holder g t th I Hth Hcs) as [L _].
-  destruct I as [Il Iq In Is Iso Id Ih Ic Ir].
+  destruct I as [Il Iq In Is Iso Id Ih Ic Ir Irq].
   constructor; cbn; auto.
   - intros t' x Hx. destruct (upd_cases _ _ _ _ _ _ Hth Hx) as [[-> ->]|[Hne Hx']].
     + cbn. rewrite Hp. split; auto.
@@ -230,6 +259,7 @@ Proof.
   - intros t' x Hx. destruct (upd_cases _ _ _ _ _ _ Hth Hx) as [[-> ->]|[? ?]].
     + unfold ret_ok; cbn. destruct p; try discriminate; exact Logic.I.
     + apply ret_ok_cons. eapply Ir; eauto.
+  - reqs_goal Hth Irq.
 Qed.
 
 Lemma step_inv g t l g' : Inv g -> step_l c g t = Some (l, g') -> Inv g'.
@@ -243,10 +273,11 @@ Proof.
   - (* write *) inversion H; subst; clear H.
     apply (inv_local g t th PHdr ((r + 1) mod 64)) with (q := q); auto; [rewrite Hpc; auto | discriminate].
   - (* header read *) inversion H; subst; clear H.
-    apply (inv_local g t th (PAcq (g_nsn g)) (g_nsn g)) with (q := q); auto; [rewrite Hpc; auto | discriminate].
+    apply (inv_local g t th _ (g_nsn g)) with (q := q); auto;
+      [rewrite Hpc; auto | destruct (q_depth q); auto | destruct (q_depth q); discriminate].
   - (* acquire *)
     destruct (g_lock g) eqn:L; [discriminate|]. inversion H; subst; clear H.
-    destruct I as [Il Iq In Is Iso Id Ih Ic Ir]. rewrite L in Ih. destruct Ih as [Hw Hib].
+    destruct I as [Il Iq In Is Iso Id Ih Ic Ir Irq]. rewrite L in Ih. destruct Ih as [Hw Hib].
     constructor; cbn; auto.
     + intros t' x Hx. destruct (upd_cases _ _ _ _ _ _ Hth Hx) as [[-> ->]|[Hne Hx']].
       * cbn. split; auto.
@@ -261,12 +292,13 @@ Proof.
       * unfold holder_ok; cbn. auto.
     + cur_goal Hth Ic Hq.
     + ret_goal Hth Ir.
+    + reqs_goal Hth Irq.
   - (* send *)
     inversion H; subst; clear H.
     assert (Hcs : in_cs (t_pc th) = true) by (rewrite Hpc; auto).
     destruct (is_holder g t th I Hth Hcs) as [L Hk].
     unfold holder_ok in Hk. rewrite Hpc in Hk. destruct Hk as (-> & Hw & Hib).
-    destruct I as [Il Iq In Is Iso Id Ih Ic Ir].
+    destruct I as [Il Iq In Is Iso Id Ih Ic Ir Irq].
     constructor; cbn; auto.
     + intros t' x Hx. destruct (upd_cases _ _ _ _ _ _ Hth Hx) as [[-> ->]|[Hne Hx']].
       * cbn. split; auto.
@@ -284,35 +316,49 @@ Proof.
       * eapply nth_error_upd_eq; eauto.
       * unfold holder_ok; cbn. split; auto.
         exists (pack_sseq c (g_sseq g)), q, (g_wire g). repeat split; auto.
-        left. repeat split; auto. rewrite Hib, In, delivers_all. reflexivity.
+        left. split; auto. exists 0%nat, (q_depth q). repeat split; auto.
+        rewrite Hib, In, delivers_all. reflexivity.
     + cur_goal Hth Ic Hq.
     + ret_goal Hth Ir.
+    + reqs_goal Hth Irq.
   - (* receive *)
     assert (Hcs : in_cs (t_pc th) = true) by (rewrite Hpc; auto).
     destruct (is_holder g t th I Hth Hcs) as [L Hk].
     unfold holder_ok in Hk. rewrite Hpc in Hk.
     destruct Hk as (-> & s & q1 & w & Hq1 & Hwf & Hcase).
     assert (q1 = q) by congruence. subst q1.
+    assert (Hcq : cmd_ok q).
+    { pose proof (inv_reqs g I t th Hth) as F. rewrite Forall_forall in F.
+      apply F. eapply nth_error_In; eauto. }
     rewrite (inv_q g I) in H.
-    destruct Hcase as [(-> & Hw & Hib)|(-> & Hs & Hw & Hib)].
-    + (* first frame after the datagram *)
-      unfold bmc_frames in Hib. destruct (is_stale c (nsent w)) eqn:Hs; cbn in Hib; rewrite Hib in H.
-      * (* an unrelated frame: dropped, counted, read again *)
-        unfold after_rx in H. rewrite rx_match_stale in H.
-        change (Nat.leb 1 (c_max_retries c)) with (Nat.leb 1 (c_max_retries c)) in H.
-        rewrite (stale_needs_retry c _ Hst Hs) in H. inversion H; subst; clear H.
-        eapply (inv_recv g t th (PRecv h 0 1) _ _ q); eauto.
+    destruct Hcase as [(-> & a & b & Hab & Hw & Hib)|(-> & Hs & Hw & Hib)].
+    + destruct b as [|b].
+      * (* all acknowledges read: the first real frame *)
+        cbn in Hib. assert (a = q_depth q) by lia. subst a.
+        unfold bmc_frames in Hib. destruct (is_stale c (nsent w)) eqn:Hs; cbn in Hib; rewrite Hib in H.
+        -- (* an unrelated frame: dropped, counted, read again *)
+           unfold after_rx in H. rewrite is_ack_stale, rx_match_stale in H by auto.
+           rewrite (stale_needs_retry c _ Hst Hs) in H. inversion H; subst; clear H.
+           eapply (inv_recv g t th (PRecv h 0 1) _ _ q); eauto.
+           unfold holder_ok; cbn. split; auto. exists s, q, w. repeat split; auto.
+           right. rewrite Hw. repeat split; auto.
+        -- unfold after_rx in H. rewrite is_ack_reply, rx_match_own in H by auto.
+           inversion H; subst; clear H.
+           eapply (inv_recv g t th (PRel h (Ok _)) _ _ q); eauto.
+           unfold holder_ok; cbn. exists s, q, w. repeat split; auto.
+           unfold exch_nf, exch_mid, exch_acks. rewrite Hs, Hw. cbn. rewrite <- app_assoc. reflexivity.
+      * (* an acknowledge of a Send Message wrapper: not counted, read on *)
+        cbn in Hib. rewrite Hib in H. unfold after_rx in H. rewrite is_ack_ack in H.
+        inversion H; subst; clear H.
+        eapply (inv_recv g t th (PRecv h 0 0) _ _ q); eauto.
         unfold holder_ok; cbn. split; auto. exists s, q, w. repeat split; auto.
-        right. rewrite Hw. repeat split; auto.
-      * unfold after_rx in H. rewrite rx_match_own in H. inversion H; subst; clear H.
-        eapply (inv_recv g t th (PRel h (Ok _)) _ _ q); eauto.
-        unfold holder_ok; cbn. exists s, q, w. repeat split; auto.
-        unfold exch_nf, exch_mid. rewrite Hs, Hw. reflexivity.
+        left. split; auto. exists (S a), b. repeat split; auto; [lia|]. rewrite Hw. reflexivity.
     + (* the frame after the unrelated one *)
-      rewrite Hib in H. unfold after_rx in H. rewrite rx_match_own in H. inversion H; subst; clear H.
+      rewrite Hib in H. unfold after_rx in H. rewrite is_ack_reply, rx_match_own in H by auto.
+      inversion H; subst; clear H.
       eapply (inv_recv g t th (PRel h (Ok _)) _ _ q); eauto.
       unfold holder_ok; cbn. exists s, q, w. repeat split; auto.
-      unfold exch_nf, exch_mid. rewrite Hs, Hw. reflexivity.
+      unfold exch_nf, exch_mid. rewrite Hs, Hw. cbn. rewrite <- app_assoc. reflexivity.
   - (* release *)
     inversion H; subst; clear H.
     assert (Hcs : in_cs (t_pc th) = true) by (rewrite Hpc; auto).
@@ -321,7 +367,7 @@ Proof.
     destruct o as [r|e]; [|contradiction].
     destruct Hk as (s & q1 & w & Hq1 & Hw & Hwf & Hr & Hib).
     assert (q1 = q) by congruence. subst q1.
-    destruct I as [Il Iq In Is Iso Id Ih Ic Ir].
+    destruct I as [Il Iq In Is Iso Id Ih Ic Ir Irq].
     constructor; cbn; auto.
     + intros t' x Hx. destruct (upd_cases _ _ _ _ _ _ Hth Hx) as [[-> ->]|[Hne Hx']].
       * cbn. split; discriminate.
@@ -336,11 +382,12 @@ Proof.
     + intros t' x Hx. destruct (upd_cases _ _ _ _ _ _ Hth Hx) as [[-> ->]|[? ?]].
       * unfold ret_ok; cbn. exists q. split; auto. exists [], w, s, h. split; auto.
       * eapply Ir; eauto.
+    + reqs_goal Hth Irq.
   - (* the code after the with block: the outcome goes to the caller *)
     inversion H; subst; clear H.
     assert (Hcs : in_cs (t_pc th) = false) by (rewrite Hpc; auto).
     pose proof (not_holder g t th I Hth Hcs) as NH.
-    destruct I as [Il Iq In Is Iso Id Ih Ic Ir].
+    destruct I as [Il Iq In Is Iso Id Ih Ic Ir Irq].
     pose proof (Ir t th Hth) as Hr. unfold ret_ok in Hr. rewrite Hpc in Hr.
     destruct o as [r|e]; [|contradiction]. destruct Hr as (q1 & Hq1 & Hex).
     assert (q1 = q) by congruence. subst q1.
@@ -365,6 +412,10 @@ Proof.
       exists th0. split; auto. rewrite nth_error_upd_neq; auto; congruence.
     + cur_goal Hth Ic Hq.
     + ret_goal Hth Ir.
+    + reqs_goal Hth Irq.
+  - (* bridged target: the read of next_sequence_number for the Send Message wrapper *)
+    inversion H; subst; clear H.
+    apply (inv_local g t th (PAcq h) (g_nsn g)) with (q := q); auto; [rewrite Hpc; auto | discriminate].
 Qed.
 
 Lemma exec1_inv g t : Inv g -> Inv (exec1 c g t).
@@ -378,8 +429,9 @@ Proof.
   unfold exec. induction sched as [|t r IH]; intros g I; cbn; auto. apply IH. apply exec1_inv; auto.
 Qed.
 
-Lemma reach_inv nsn0 progs sched : Inv (exec c sched (init nsn0 s0 progs)).
-Proof. apply exec_inv, inv_init. Qed.
+Lemma reach_inv nsn0 progs sched : Forall (Forall cmd_ok) progs ->
+  Inv (exec c sched (init nsn0 s0 progs)).
+Proof. intros. apply exec_inv, inv_init; auto. Qed.
 
 (* ---------- consequences ---------- *)
 
@@ -412,8 +464,9 @@ Proof.
     destruct (inv_cur g I t0 th0 Hth0) as [E|E]; [rewrite E in Hcs; discriminate|].
     destruct (nth_error (t_reqs th0) (t_k th0)) as [q0|]; [|congruence].
     unfold holder_ok in Hk. destruct (t_pc th0); try contradiction; try discriminate.
-    + destruct Hk as (_ & s & q1 & w & _ & _ & [(_ & _ & Hib)|(_ & _ & _ & Hib)]);
+    + destruct Hk as (_ & s & q1 & w & _ & _ & [(_ & a & b & _ & _ & Hib)|(_ & _ & _ & Hib)]);
         rewrite (inv_q g I), Hib; [|discriminate].
+      destruct b; cbn; [|discriminate].
       unfold bmc_frames. destruct (is_stale c (nsent w)); discriminate.
   - exists t. unfold step, step_l. rewrite Hth, Hq.
     destruct (t_pc th) eqn:Hpc; try discriminate; try (rewrite L; discriminate);
@@ -431,10 +484,19 @@ Lemma nsent_rev l : nsent (rev l) = nsent l.
 Proof. induction l as [|[] l IH]; cbn; auto; rewrite nsent_app; cbn; lia. Qed.
 
 Lemma rev_exch_nf c t k s h q n : rev (exch_nf c t k s h q n) = exch_tx c t k s h q n.
-Proof. unfold exch_nf, exch_tx, exch_mid. destruct (is_stale c n); reflexivity. Qed.
+Proof.
+  unfold exch_nf, exch_tx, exch_mid, exch_acks.
+  destruct (is_stale c n); cbn; rewrite ?rev_app_distr; cbn; rewrite rev_repeat', <- ?app_assoc; reflexivity.
+Qed.
+
+Lemma nsent_acks t f k : nsent (repeat (Rcvd t f) k) = 0.
+Proof. induction k; cbn; auto. Qed.
 
 Lemma nsent_exch_tx c t k s h q n : nsent (exch_tx c t k s h q n) = 1.
-Proof. unfold exch_tx, exch_mid. destruct (is_stale c n); reflexivity. Qed.
+Proof.
+  unfold exch_tx, exch_mid, exch_acks. cbn. rewrite !nsent_app, nsent_acks.
+  destruct (is_stale c n); reflexivity.
+Qed.
 
 (* oldest first: the log from datagram number n on is a sequence of complete
    exchanges [exch_tx] - a datagram of some thread, (the unrelated frame, if the BMC sent
@@ -467,8 +529,10 @@ Qed.
 Definition not_interleaved (c : cfg) (g : gstate) : Prop :=
   complete_exchanges c 0 (rev (g_wire g)) \/
   exists t k s h q l, g_lock g = Some t /\ complete_exchanges c 0 l /\
-    (rev (g_wire g) = l ++ [Sent t k s h q] \/
-     rev (g_wire g) = l ++ [Sent t k s h q; Rcvd t (stale_frame (nsent l) h q)]).
+    ((exists a, (a <= q_depth q)%nat /\
+        rev (g_wire g) = l ++ Sent t k s h q :: repeat (Rcvd t (ack_frame (nsent l))) a) \/
+     rev (g_wire g) = l ++ Sent t k s h q :: exch_acks t (nsent l) q ++
+                           [Rcvd t (stale_frame (nsent l) h q)]).
 
 Lemma not_interleaved_of_inv c s0 g : Inv c s0 g -> not_interleaved c g.
 Proof.
@@ -477,11 +541,13 @@ Proof.
   - destruct Hh as (th & Hth & Hk). unfold holder_ok in Hk.
     destruct (t_pc th); try contradiction.
     + left. apply wf_wire_ce. tauto.
-    + right. destruct Hk as (_ & s & q & l & _ & Hwf & [(_ & Hw & _)|(_ & _ & Hw & _)]);
-        exists t, (t_k th), s, h, q, (rev l); rewrite Hw; cbn; (split; [auto|]);
+    + right. destruct Hk as (_ & s & q & l & _ & Hwf & [(_ & a & b & Hab & Hw & _)|(_ & _ & Hw & _)]);
+        exists t, (t_k th), s, h, q, (rev l); rewrite Hw; (split; [auto|]);
         (split; [apply wf_wire_ce; auto|]).
-      * left; reflexivity.
-      * right. rewrite nsent_rev, <- app_assoc. reflexivity.
+      * left. exists a. split; [lia|]. rewrite rev_app_distr, rev_repeat', nsent_rev. cbn.
+        rewrite <- app_assoc. reflexivity.
+      * right. unfold exch_acks. cbn. rewrite rev_app_distr, rev_repeat', nsent_rev. cbn.
+        rewrite <- !app_assoc. reflexivity.
     + destruct o; try contradiction. left.
       destruct Hk as (s & q & l & _ & Hw & Hwf & Hr & _). apply wf_wire_ce. rewrite Hw.
       constructor; auto.
@@ -585,6 +651,7 @@ Qed.
 Section AllSchedules.
 Variables (c : cfg) (nsn0 s0 : N) (progs : list (list treq)) (sched : list tid).
 Hypothesis Hok : bmc_ok c.
+Hypothesis Hreqs : Forall (Forall cmd_ok) progs.
 Let g := exec c sched (init nsn0 s0 progs).
 Let Hst : stale_ok c := proj1 Hok.
 Let Hlose : c_lose c = [] := proj2 Hok.
@@ -623,7 +690,7 @@ Lemma after_rx_same c g t th q h retry rr rx :
   g_wire (after_rx c g t th q h retry rr rx) = g_wire g /\
   g_sseq (after_rx c g t th q h retry rr rx) = g_sseq g.
 Proof.
-  unfold after_rx. destruct (rx_match h q rx); [|destruct (Nat.leb (S rr) (c_max_retries c))]; cbn; auto.
+  unfold after_rx. destruct (is_ack rx); [|destruct (rx_match h q rx); [|destruct (Nat.leb (S rr) (c_max_retries c))]]; cbn; auto.
 Qed.
 
 Lemma step_seqinv c s0 g t l g' : SeqInv c s0 g -> step_l c g t = Some (l, g') -> SeqInv c s0 g'.
@@ -648,6 +715,7 @@ Proof.
       destruct (after_rx_same c (mkG (g_nsn g) (g_lock g) (g_sseq g) q' (g_inbox g) (g_nrx g)
                                     (g_wire g) (g_thr g)) t th q h retry rr rx) as [-> ->].
       cbn. auto.
+  - inversion H; subst; split; cbn; auto.
   - inversion H; subst; split; cbn; auto.
   - inversion H; subst; split; cbn; auto.
 Qed.
